@@ -21,7 +21,7 @@ IsEv(e) == l <= N /\ Rec.ev = e
 ASSUME TLCSet(1, 1)
 
 TraceInit == /\ l = 1 /\ path = PathRec("absent", NoKey, "none") /\ out = <<>> /\ inUse = NoKey /\ pc = "exited" /\ run = 0
-             /\ exit = 0 /\ fresh = 2 /\ hist = <<>> /\ lines = 2 /\ input = "good" /\ env = "none" /\ before = path
+             /\ exit = 0 /\ fresh = 2 /\ hist = <<>> /\ lines = 3 /\ input = "good" /\ env = "none" /\ before = path
 
 TraceStart ==
   /\ IsEv("Init") /\ pc = "exited"
